@@ -153,7 +153,7 @@ class Extractor:
     def parse_block(self, block):
         """parse the directive block of an EXTRACT."""
         d = dict(ret=None, safety=None, spec=None, loops={}, loopstart={}, loopend={}, inserts=[], substs=[], bodyonly=False,
-                 frm=None, to=None, optional=False, rename=None, pub=False, r4=False, replaces=[], pubfields=False, fnend=None)
+                 frm=None, to=None, optional=False, rename=None, pub=False, r4=False, replaces=[], pubfields=False, fnend=None, fnstart=None)
         i = 0
 
         def grab(endmarks):
@@ -204,6 +204,9 @@ class Extractor:
             elif k == "FNEND":
                 txt, _ = grab(["ENDFNEND"])
                 d["fnend"] = txt
+            elif k == "FNSTART":
+                txt, _ = grab(["ENDFNSTART"])
+                d["fnstart"] = txt
             elif k == "LOOPSTART":
                 n = int(w[1])
                 txt, _ = grab(["ENDLOOPSTART"])
@@ -525,6 +528,11 @@ class Extractor:
                     n4 += 1
             if n4 == 0:
                 raise LostAnchor("R4 requested but fn %s has no `continue`" % name)
+
+        if kind == "fn" and d["fnstart"] is not None:
+            o = toks[body_lo].end - base
+            pieces.append(Piece(o, o, "\n" + d["fnstart"] + "\n", "ins"))
+            bump("R8")
 
         if kind == "fn" and d["fnend"] is not None:
             o = toks[body_hi].start - base
